@@ -1129,18 +1129,23 @@ def oracle(case, obs):
             for x in o:
                 if x[0] == "Crash" and x[1] != "CrashTrailers":
                     v.append({"key": "connection-object-crash-" + x[1], "what": f"{k} object raised {x[1:]} for stream {case['stream'][:120]}"})
-        # every message ends once: a second EndOfMessage without a new head in between
+        # every message ends once: received bytes never produce a second EndOfMessage without a new head in between
+        # (the EndOfMessage a closing tunnel reports for the peer close is not one)
         ended = False
-        for x in obs["view"]:
-            if x[0] in ("ReqHeaders", "RespHeaders"):
-                ended = False
-            elif x[0] == "EndOfMessage":
-                if ended and k == "cli":
-                    v.append({"key": "client-early-response-repeats-end-of-message",
-                              "what": f"cli: the response ended before the request did (streamed request); the next server bytes make "
-                                      f"read_body run the finished reader again: second ResponseEndOfMessage({x[1]}); cuts {case['cuts'][:12]}"})
-                    break
-                ended = True
+        for e, o in zip(obs["res"]["events"], obs["res"]["outs"]):
+            for x in o:
+                if x[0] in ("ReqHeaders", "RespHeaders"):
+                    ended = False
+                elif x[0] == "EndOfMessage":
+                    if ended and k == "cli" and e[0] == "data":
+                        v.append({"key": "client-early-response-repeats-end-of-message",
+                                  "what": f"cli: server bytes after a complete response make read_body run the finished reader "
+                                          f"again: second ResponseEndOfMessage({x[1]}); cuts {case['cuts'][:12]}"})
+                        ended = None
+                        break
+                    ended = True
+            if ended is None:
+                break
         if obs["base"] is not None and obs["view"] != obs["base"]:
             i, x, y = _first_diff(obs["view"], obs["base"])
             a, b = obs["view"], obs["base"]
